@@ -162,6 +162,8 @@ pub struct Workload {
     /// with `fresh`: the concurrent phase runs BEFORE the sequential baseline, so names and
     /// sources of this workload meet their first use in the process concurrently
     pub cold: bool,
+    /// afterwards the first thread's operations run once more on the process's early-bird thread
+    pub early: bool,
 }
 
 impl Workload {
@@ -178,6 +180,7 @@ impl Workload {
             .with("extra_tree_sources", Json::arr_of_str(self.extra_tree_sources.iter().cloned()))
             .with("fresh", Json::Bool(self.fresh))
             .with("cold", Json::Bool(self.cold))
+            .with("early", Json::Bool(self.early))
             .with(
                 "threads",
                 Json::Arr(
@@ -224,6 +227,7 @@ impl Workload {
                 .unwrap_or_default(),
             fresh: j.get("fresh").and_then(|b| b.as_bool()).unwrap_or(false),
             cold: j.get("cold").and_then(|b| b.as_bool()).unwrap_or(false),
+            early: j.get("early").and_then(|b| b.as_bool()).unwrap_or(false),
         })
     }
 
@@ -729,6 +733,78 @@ pub struct RunOutcome {
     pub report: SimReport,
 }
 
+// ------------------------------------------------------------------------------ early bird
+//
+// A long-lived thread that is started before anything else in the process touches the library
+// (a thread pool created at start-up): it evaluates a few expressions against an empty
+// `HashMapContext` while no user function exists anywhere in the process yet, then waits for
+// jobs. Later, objects built on the main thread are shared with it; what it computes must be
+// what every other thread computes (per-thread snapshots of process-wide facts go stale here).
+
+type Job = Box<dyn FnOnce() + Send>;
+
+pub struct EarlyBird {
+    tx: std::sync::mpsc::Sender<Job>,
+    handle: std::thread::JoinHandle<()>,
+}
+
+impl EarlyBird {
+    pub fn start() -> EarlyBird {
+        let (tx, rx) = std::sync::mpsc::channel::<Job>();
+        let (ready_tx, ready_rx) = std::sync::mpsc::channel::<()>();
+        let handle = std::thread::Builder::new()
+            .name("early-bird".into())
+            .stack_size(if cfg!(miri) { 1 << 20 } else { 32 << 20 })
+            .spawn(move || {
+                let ctx = Ctx::new();
+                let _ = evalexpr::eval_with_context("f(1) + a", &ctx);
+                let _ = evalexpr::eval_with_context("len(\"ab\") + max(1, 2)", &ctx);
+                let _ = evalexpr::eval("1 + 2 * 3");
+                let _ = build_operator_tree::<DefaultNumericTypes>("x = 1; y(2)");
+                let _ = ready_tx.send(());
+                for job in rx {
+                    job();
+                }
+            })
+            .expect("spawn early bird");
+        let _ = ready_rx.recv();
+        EarlyBird { tx, handle }
+    }
+
+    /// Runs `f` on the early bird and waits for its result.
+    pub fn run<T: Send + 'static>(&self, f: impl FnOnce() -> T + Send + 'static) -> Option<T> {
+        let (rtx, rrx) = std::sync::mpsc::channel();
+        self.tx
+            .send(Box::new(move || {
+                let _ = rtx.send(f());
+            }))
+            .ok()?;
+        rrx.recv().ok()
+    }
+
+    pub fn shutdown(self) {
+        drop(self.tx);
+        let _ = self.handle.join();
+    }
+}
+
+static EARLY_BIRD: std::sync::OnceLock<std::sync::Mutex<EarlyBird>> = std::sync::OnceLock::new();
+
+/// Must be the first thing the process does with the library.
+pub fn start_process_early_bird() {
+    let _ = EARLY_BIRD.set(std::sync::Mutex::new(EarlyBird::start()));
+}
+
+fn on_early_bird(ops: Vec<TOp>, sh: Arc<Shared>) -> Option<Vec<String>> {
+    let bird = EARLY_BIRD.get()?.lock().ok()?;
+    bird.run(move || {
+        let _ = take_built();
+        let r = ops.iter().map(|o| exec(o, &sh)).collect::<Vec<String>>();
+        let _ = take_built();
+        r
+    })
+}
+
 /// One complete simulation of a workload under a scheduler configuration.
 static CANARY_PARSED_BEFORE: std::sync::atomic::AtomicBool = std::sync::atomic::AtomicBool::new(false);
 const CANARY_SOURCE: &str = "1 + a * 2";
@@ -883,6 +959,25 @@ pub fn run(w: &Workload, cfg: sched::SimConfig) -> Result<RunOutcome, String> {
             }
         }
     }
+    if finding.is_none() && w.early && !w.threads.is_empty() {
+        // the first thread's operations once more, alone, on the thread that was warm before
+        // anything else in the process existed
+        if let Some(got) = on_early_bird(w.threads[0].clone(), sh.clone()) {
+            for (k, e) in expected[0].iter().enumerate() {
+                let a = got.get(k).cloned().unwrap_or_else(|| "<missing>".into());
+                if *e != a {
+                    finding = Some(CFinding {
+                        class: "long-lived-thread-differs".into(),
+                        thread: 0,
+                        op: k,
+                        expected: e.clone(),
+                        actual: a,
+                    });
+                    break;
+                }
+            }
+        }
+    }
     if finding.is_none() {
         // contexts built on the simulated threads, moved to the main thread, probed name-major
         let per_thread: Vec<Vec<Ctx>> = built
@@ -983,6 +1078,7 @@ pub fn miri_workload(seed: u64) -> Workload {
         extra_tree_sources: vec![],
         fresh: true,
         cold: false,
+            early: false,
     };
     let n_threads = rng.range(2, 3);
     match family {
@@ -1100,6 +1196,8 @@ pub const AOP_ADD: verifsim::prog::AOp = verifsim::prog::AOp::Add;
 /// baseline is computed on an independently built copy, so the shared objects meet their first
 /// use concurrently. Returns the process exit code.
 pub fn miri_scenario(seed: u64) -> i32 {
+    // a thread that used the library before anything was built (see `EarlyBird`)
+    let bird = EarlyBird::start();
     let w = miri_workload(seed);
     let reference = match build_shared(&w) {
         Ok(s) => s,
@@ -1159,6 +1257,26 @@ pub fn miri_scenario(seed: u64) -> i32 {
         let (e, p) = sequential_with_contexts(&w, &reference);
         expected = e;
         expected_probes = p;
+    }
+    let on_bird = {
+        let ops = w.threads.first().cloned().unwrap_or_default();
+        let sh = sh.clone();
+        bird.run(move || {
+            let _ = take_built();
+            let r = ops.iter().map(|o| exec(o, &sh)).collect::<Vec<String>>();
+            let _ = take_built();
+            r
+        })
+    };
+    bird.shutdown();
+    if let (Some(got), Some(exp)) = (on_bird, expected.first()) {
+        if let Some(k) = (0..exp.len()).find(|k| got.get(*k) != Some(&exp[*k])) {
+            println!(
+                "VIOLATION property=C15 class=long-lived-thread-differs engine=miri workload_seed={} family={} thread=0 op={} expected={} actual={:?}",
+                seed, seed % 4, k, exp[k], got.get(k)
+            );
+            return 1;
+        }
     }
     if probes != expected_probes {
         let k = probes.iter().zip(expected_probes.iter()).position(|(a, b)| a != b).unwrap_or(0);
@@ -1304,6 +1422,7 @@ pub fn gen_workload_sized(rng: &mut Rng, small: bool) -> Workload {
             extra_tree_sources: Vec::new(),
             fresh: false,
             cold: false,
+            early: false,
         };
     }
     // rarely: hot reload under load - one thread clones and republishes the shared context many
@@ -1333,6 +1452,7 @@ pub fn gen_workload_sized(rng: &mut Rng, small: bool) -> Workload {
             extra_tree_sources: Vec::new(),
             fresh: false,
             cold: false,
+            early: false,
         };
     }
     let n_threads = if many_threads { rng.range(5, 8) } else { rng.range(2, 4) };
@@ -1389,6 +1509,7 @@ pub fn gen_workload_sized(rng: &mut Rng, small: bool) -> Workload {
         extra_tree_sources: Vec::new(),
         fresh,
         cold: fresh && rng.percent(50),
+        early: rng.percent(15),
     }
 }
 
